@@ -5,25 +5,56 @@ From PyxelV Require Import Proofs.PipelineEq.
 Import ListNotations.
 Open Scope list_scope.
 
+(* one judged run: the recorded calls are literally the observable projection of what `run` makes *)
+Lemma agrees_run_exposure faithful run prior p n debug t nodes :
+  agrees_run faithful run prior p n (Exposure debug) (Ran t nodes) = true ->
+  t = map obs_of (fst (run debug p n)).
+Proof.
+  unfold agrees_run. intro H. rewrite !andb_true_iff in H. destruct H as [H _].
+  apply trace_eqb_eq in H. exact H.
+Qed.
+
+Lemma agrees_run_observation faithful run prior p n runs t nodes :
+  agrees_run faithful run prior p n (Observation runs) (Ran t nodes) = true ->
+  t = flat_map (fun os => map obs_of (fst (run false (apply_overrides p os) n))) runs.
+Proof. unfold agrees_run. intro H. apply trace_eqb_eq in H. exact H. Qed.
+
+Lemma agrees_run_never_failed faithful run prior p n m cls :
+  agrees_run faithful run prior p n m (Failed cls) = false.
+Proof. destruct m as [d| | |]; reflexivity. Qed.
+
+(* the run function of the second accepted reading: no model can change its configuration *)
+Definition frozen_run (debug : bool) (p : pipeline) (n : nat) : list call * list capture :=
+  spec_run debug (freeze p) n.
+
+Lemma spec_ok_cases c :
+  spec_ok c = true -> agrees false spec_run c = true \/ agrees false frozen_run c = true.
+Proof. unfold spec_ok. intro H. apply orb_true_iff in H. exact H. Qed.
+
 (* what "no violation reported" means for an exposure case: the recorded calls are literally the
-   observable projection of the trace of the theorems *)
+   observable projection of the trace of the theorems — of the configuration as written, or (second
+   accepted reading, only different when a growing model is present) of its frozen form *)
 Lemma judgement_sound_exposure c p debug t nodes :
   from_yaml (k_doc c) = Ok p -> k_mode c = Exposure debug -> k_observed c = Ran t nodes ->
-  agrees false spec_run c = true ->
-  t = map obs_of (trace_of spec_order debug p (k_steps c)).
+  spec_ok c = true ->
+  t = map obs_of (trace_of spec_order debug p (k_steps c)) \/
+  t = map obs_of (trace_of spec_order debug (freeze p) (k_steps c)).
 Proof.
-  intros Hy Hm Ho. unfold agrees, expected_failure. rewrite Hy, Ho, Hm.
-  assert (E : (if debug then (if false && is_nil (snd (spec_run true p (k_steps c))) then Some "RuntimeError"%string else None) else None) = @None string)
-    by (destruct debug; reflexivity).
-  destruct debug; simpl andb; cbv iota; intro H; apply andb_true_iff in H; destruct H as [H _];
-    apply trace_eqb_eq in H; rewrite H; f_equal; apply spec_run_is_trace.
+  intros Hy Hm Ho H. apply spec_ok_cases in H. unfold agrees in H. rewrite Hy, Ho, Hm in H.
+  destruct H as [H|H]; apply agrees_run_exposure in H; [left|right]; rewrite H; f_equal.
+  - apply spec_run_is_trace.
+  - unfold frozen_run. apply spec_run_is_trace.
 Qed.
 
 Lemma judgement_sound_observation c p runs t nodes :
   from_yaml (k_doc c) = Ok p -> k_mode c = Observation runs -> k_observed c = Ran t nodes ->
-  agrees false spec_run c = true ->
-  t = flat_map (fun os => map obs_of (trace_of spec_order false (apply_overrides p os) (k_steps c))) runs.
+  spec_ok c = true ->
+  t = flat_map (fun os => map obs_of (trace_of spec_order false (apply_overrides p os) (k_steps c))) runs \/
+  t = flat_map (fun os => map obs_of (trace_of spec_order false (freeze (apply_overrides p os)) (k_steps c))) runs.
 Proof.
-  intros Hy Hm Ho. unfold agrees, expected_failure. rewrite Hy, Ho, Hm. intro H.
-  apply trace_eqb_eq in H. rewrite H. apply flat_map_ext. intro os. f_equal. apply spec_run_is_trace.
+  intros Hy Hm Ho H. apply spec_ok_cases in H. unfold agrees in H. rewrite Hy, Ho, Hm in H.
+  destruct H as [H|H]; apply agrees_run_observation in H; [left|right]; rewrite H;
+    apply flat_map_ext; intro os; f_equal.
+  - apply spec_run_is_trace.
+  - unfold frozen_run. apply spec_run_is_trace.
 Qed.
